@@ -36,6 +36,7 @@ def run(ctx):
     vlib.mc_check(ctx, "StorageProto", "StorageProto_negF4.cfg", expect_violation="CrashNoOrphan", timeout=120, workers=2)
     vlib.mc_check(ctx, "StorageProto", "StorageProto_negS8.cfg", expect_violation="OrphanIsF4Class", timeout=120, workers=2)
     vlib.mc_check(ctx, "StorageProto", "StorageProto_negInv.cfg", expect_violation="NeverDeletesBuilding", timeout=120, workers=2)
+    vlib.mc_check(ctx, "StorageProto", "StorageProto_negS11.cfg", expect_violation="NeverDeletesNeeded", timeout=300, workers=4)
 
     ev = sc.record_histories(ctx, "fixed", sc.fixed_histories())
     ev += sc.record_random(ctx, "rand", 50 if ctx.quick else 500, 30, ctx.seed + 11)
